@@ -39,7 +39,8 @@ SHEETS = [  # (name, needs_quotes, class)
     ('S-1', True, 'punct'), ('2020', True, 'digit-first'),
     ('Üni', False, 'plain'), ('', False, 'none'),
 ]
-BOOKS = [('', ''), ('', 'b.xlsx'), ('', 'Book 2.xlsx'), ('sub', 'c.xlsx')]
+BOOKS = [('', ''), ('', 'b.xlsx'), ('', 'Book 2.xlsx'), ('sub', 'c.xlsx'),
+         ('', '2024_q1.xlsx'), ('arch', '7.xlsx'), ('', '3d-model.xlsx')]
 
 
 def _is_edge(cls):
